@@ -269,7 +269,11 @@ func (s *mainQueueScheduler) restoreMaxHeap(sender string, seq uint64) {
 	case current != nil:
 		s.maxHeap.remove(current)
 	case first != nil:
-		s.maxHeap.push(first)
+		// The first transaction may already be pending in case the sender has been forwarded
+		// past the scheduled transactions during the schedule.
+		if !isPendingSchedule(first) {
+			s.maxHeap.push(first)
+		}
 	default:
 	}
 }
@@ -349,15 +353,23 @@ func (s *mainQueueScheduler) nextSchedulable(tx *mainQueueTransaction) (*mainQue
 //   - No schedule is in progress, and this transaction is the first
 //     pending transaction for the sender.
 //   - A schedule is in progress, and this transaction's sequence number
-//     follows the last scheduled transaction for the same sender.
+//     follows the last scheduled transaction for the same sender, or it
+//     is the first pending transaction of a sender that has been forwarded
+//     past the last scheduled transaction.
 func (s *mainQueueScheduler) isSchedulable(tx *mainQueueTransaction, seqHeap *senderTxHeap) bool {
+	next := seqHeap.seq
 	if last, ok := s.scheduled[tx.sender]; ok {
 		if last == math.MaxUint64 {
 			return false
 		}
-		return tx.seq == last+1
+		// Transactions up to and including the last scheduled one have been handed out in this
+		// schedule. The sender may have been forwarded past them in the meantime, in which case
+		// its first pending transaction is the next one.
+		if last+1 > next {
+			next = last + 1
+		}
 	}
-	return tx.seq == seqHeap.seq
+	return tx.seq == next
 }
 
 // isPendingSchedule returns true if the transaction is in the max heap
